@@ -4,6 +4,7 @@ BIT-1 `UnsignedInteger::bit_index` - the map from logical bit i to the coefficie
       that places the bits of byte b at b + t * 2^LOG_BYTES (the stride the byte-isolating trace relies on).  Decided by interpreting the MIR of the (straight-line,
       integer-only) function on all BITS inputs with the associated constants of each impl: an exhaustive evaluation of a constant table, like C13.
 BIT-2 every associated constant of an impl is consistent with BITS: LOG_BITS = ceil(log2 BITS), LOG_BYTES = LOG_BITS - 3, LOG_BYTES_MASK = 2^LOG_BYTES - 1
+BIT-3 blind retrieval (forward and reverse butterfly): the swap stage of distance 2^e is controlled by stored bit bit_rsh + e
 BDD-* (shared with C13) every shipped circuit computes its word function for all inputs and each word operation is bound to its table
 THR-4/6/7 (shared with C20) the multi-threaded evaluators and the partial-preparation windows address every bit exactly once
 """
@@ -104,6 +105,63 @@ def bit1(p, res):
     return n
 
 
+def bit3(p, res):
+    """butterfly networks over the bits of an encrypted index (blind retrieval, forward and reverse): the conditional swap at distance 2^e is controlled by bit e of the selected
+    sub-field, i.e. by stored bit  bit_rsh + e:  for every `get_bit(k)` and every stride `1 << e` of the same function,  k - e == bit_rsh  (identity in the loop variables)"""
+    from . import pwl
+    from .cfg import Flow
+    from .sym import Sym, Poly
+    n = 0
+    for f in sorted(p.lib_fns(), key=lambda x: x.uid):
+        if f.kind == "Closure" or not f.blocks or not f.uid.startswith("poulpy_bin_fhe::bdd_arithmetic"):
+            continue
+        pn = {v: k for k, v in f.param_names().items()}
+        if "bit_rsh" not in pn:
+            continue
+        gets = [(bi, t) for bi, t in f.calls() if (f.callee_def(t) or {}).get("n") == "get_bit" and len(t["a"]) == 2]
+        swaps = [(bi, t) for bi, t in f.calls() if (f.callee_def(t) or {}).get("n") in ("cswap", "cmux", "cmux_assign", "cmux_assign_neg")]
+        shls = []
+        for blk in f.blocks:
+            for st in blk["s"]:
+                if st[0] == "A" and st[2]["k"] == "Bin" and st[2].get("op", "").replace("WithOverflow", "").replace("Unchecked", "") == "Shl" and st[2]["o"][0][0] == "k" and st[2]["o"][0][1].get("v") == 1:
+                    shls.append(st)
+        if not gets or not swaps or not shls:
+            continue
+        n += 1
+        sym = Sym(f, Flow(f))
+        R = Poly.atom(("p", pn["bit_rsh"], ()))
+        if "bit_lsh" in pn:
+            # the selected sub-field is re-scaled by 2^bit_lsh: stage e = i + bit_lsh is controlled by stored bit i + bit_rsh
+            R = R - Poly.atom(("p", pn["bit_lsh"], ()))
+        bad = None
+        pts = 0
+        for _, tg in gets:
+            k = sym.operand(tg["a"][1])
+            for st in shls:
+                e = sym.operand(st[2]["o"][1])
+                for val in pwl.valuations(count=800, hi=9):
+                    ev = pwl.Eval(p, val)
+                    ev.syms[f.uid] = sym
+                    try:
+                        kv, evv, rv = ev.poly(k), ev.poly(e), ev.poly(R)
+                    except pwl.ErrPath:
+                        continue
+                    if evv < 0 or kv < 0:
+                        continue        # loop variables outside their range
+                    pts += 1
+                    if kv - evv != rv and bad is None:
+                        bad = {"bit": kv, "log2_stride": evv, "bit_rsh": rv, "bit_expr": repr(k), "stride_expr": "1 << (%r)" % e}
+        if bad:
+            res.bad("BIT-3", f.pretty, "stride-bit-pairing",
+                    "%s swaps at distance 2^%d under stored bit %d with bit_rsh = %d: the butterfly stage of distance 2^e must be controlled by bit bit_rsh + e (bit = `%s`, stride = `%s`)"
+                    % (f.pretty, bad["log2_stride"], bad["bit"], bad["bit_rsh"], bad["bit_expr"], bad["stride_expr"]), site=f.where(), detail=bad)
+        elif pts >= 200:
+            res.ok("BIT-3", {"fn": f.pretty, "law": "get_bit index - log2(stride) == bit_rsh"})
+        else:
+            res.undec("BIT-3", "%s: too few admissible points" % f.pretty)
+    return n
+
+
 def run(res, tier):
     from . import c13, c20
     res_level = "other"
@@ -116,6 +174,7 @@ def run(res, tier):
                        "homomorphic pipeline are not decided.")
     res.rule("BIT-1", "bit_index is a permutation of [0, BITS) placing bit t of byte b at b + t * 2^LOG_BYTES, for every implementing type")
     res.rule("BIT-2", "LOG_BITS / LOG_BYTES / LOG_BYTES_MASK of every impl are consistent with BITS")
+    res.rule("BIT-3", "blind retrieval butterflies: the stage of distance 2^e is controlled by stored bit bit_rsh + e (forward and reverse networks)")
     res.rule("THR-4", "exact partition of the work items of the multi-threaded evaluators")
     res.rule("THR-6", "window parameters keep their role across forwarding calls")
     res.rule("THR-7", "an empty set of work items is handled")
@@ -125,6 +184,8 @@ def run(res, tier):
         p = facts.load(cfg)
         n = bit1(p, res)
         res.floor("BIT-1", "UnsignedInteger impls", n, 5)
+        n3 = bit3(p, res)
+        res.floor("BIT-3", "blind retrieval butterfly networks", n3, 2)
         c20.thr4(p, res)
         n6 = c20.thr6(p, res)
         res.floor("THR-6", "window arguments forwarded by name", n6, 4)
